@@ -43,6 +43,7 @@ type Prog struct {
 	Materialised int             /* loads of once-assigned package-level function tables replaced by the literal */
 	Forwarded    int             /* reference functions found to be forwarders to a new function which took over their body */
 	ifaceNames   map[string]bool /* method names of the module's own interface types */
+	fieldMut     map[*types.Var]bool /* fields stored to by something other than a constructor */
 	Promoted     int             /* Functions whose struct parameters were replaced by their fields. */
 	Unrolled     int             /* Functions in which a loop over a literal table was unrolled. */
 	Devirt       int             /* Interface calls resolved to the one implementing type. */
